@@ -405,6 +405,7 @@ func splitRecvField(s string) (string, string, bool) {
 
 var pureRe = regexp.MustCompile(`^(rec\s+)?func\s+([A-Za-z_][A-Za-z0-9_]*)\s*\(([^)]*)\)\s*([A-Za-z0-9_\[\]]+)\s*=\s*(.*)$`)
 
+
 func parsePure(pkg, s, src string) (*PureFunc, error) {
 	m := pureRe.FindStringSubmatch(strings.TrimSpace(s))
 	if m == nil {
